@@ -71,7 +71,7 @@ Print Assumptions C01_stale_lock_refuted.
    precommit for b of round r in sp. *)
 From Coq Require Import ZArith.
 From Goloop Require Import Model_ConsensusNode Model_ConsensusNet.
-From Goloop Require Proofs_ConsensusNet.
+From Goloop Require Proofs_ConsensusNet_Link Proofs_ConsensusNet.
 
 (* the property at full strength (all event lists, crash points inside events included) *)
 Definition C01_full_statement : Prop :=
@@ -81,22 +81,110 @@ Definition C01_full_statement : Prop :=
       decided_of (run_net n byz blocks evs) i = Some v ->
       decided_of (run_net n byz blocks evs) j = Some w -> v = w.
 
-(* proved for histories without crashes ([no_crash]: no crash point inside an
-   event, no crash event, every engine started once) *)
-Theorem C01_agreement_partial_no_crash :
-  forall (n : nat) (byz : nat -> bool) (blocks : list blk) (evs : list nev),
-    no_crash evs = true -> (3 * nbyz n byz < n)%nat ->
+(* Proved for every history whose crashes happen BETWEEN events
+   ([boundary_crashes evs]: no crash point inside an event; [ECrash kr kl kc]
+   events with any number of surviving unsynced WAL records and [ERestart]
+   events replaying the three WALs are allowed, any number of times, for any
+   engine, as are panics of the engine followed by a restart).
+   [blocks] hypothesis: a part set has at least one part. *)
+Theorem C01_agreement_partial :
+  forall (n : nat) (byz : nat -> bool) (blocks : list blk),
+    (forall x, In x blocks -> (1 <= b_parts x)%N) ->
+    (3 * nbyz n byz < n)%nat ->
+  forall evs : list nev,
+    boundary_crashes evs = true ->
     forall i j v w, correct n byz i -> correct n byz j ->
       decided_of (run_net n byz blocks evs) i = Some v ->
       decided_of (run_net n byz blocks evs) j = Some w -> v = w.
-Proof. exact Proofs_ConsensusNet.agreement_no_crash. Qed.
-Print Assumptions C01_agreement_partial_no_crash.
+Proof. exact Proofs_ConsensusNet.agreement_boundary. Qed.
+Print Assumptions C01_agreement_partial.
 
-Theorem C01_finalize_needs_quorum_partial_no_crash :
-  forall (n : nat) (byz : nat -> bool) (blocks : list blk) (evs : list nev),
-    no_crash evs = true -> (3 * nbyz n byz < n)%nat ->
+Theorem C01_finalize_needs_quorum_partial :
+  forall (n : nat) (byz : nat -> bool) (blocks : list blk),
+    (forall x, In x blocks -> (1 <= b_parts x)%N) ->
+    (3 * nbyz n byz < n)%nat ->
+  forall evs : list nev,
+    boundary_crashes evs = true ->
     forall i b, correct n byz i -> decided_of (run_net n byz blocks evs) i = Some b ->
       exists r, (0 <= r)%Z /\
         over23 (count_precommits (soup byz (run_net n byz blocks evs)) n r b) n = true.
-Proof. exact Proofs_ConsensusNet.finalize_needs_quorum_no_crash. Qed.
-Print Assumptions C01_finalize_needs_quorum_partial_no_crash.
+Proof. exact Proofs_ConsensusNet.finalize_needs_quorum_boundary. Qed.
+Print Assumptions C01_finalize_needs_quorum_partial.
+
+(* the refinement itself: the network state is related to a reachable state of
+   the abstract protocol (same soup up to [conv], same locks, finalized blocks
+   decided) *)
+Theorem C01_refinement_partial :
+  forall (n : nat) (byz : nat -> bool) (blocks : list blk),
+    (forall x, In x blocks -> (1 <= b_parts x)%N) ->
+    (3 * nbyz n byz < n)%nat ->
+  forall evs : list nev,
+    boundary_crashes evs = true ->
+    exists T, TM.reachable n byz T /\
+      forall i s, correct n byz i -> node_of (run_net n byz blocks evs) i = Some s ->
+        (forall m, In m (TM.soup T) <->
+           exists v, In v (soup byz (run_net n byz blocks evs)) /\ Proofs_ConsensusNet_Link.conv v = m) /\
+        (status_ s = Running -> TM.lock T i = Proofs_ConsensusNet_Link.convlock (lock_of s)) /\
+        (forall b, decided s = Some b -> TM.decided T i = Some b).
+Proof. exact Proofs_ConsensusNet.refinement_boundary. Qed.
+Print Assumptions C01_refinement_partial.
+
+(* ---- the restart lemmas (proved separately, used by the theorems above) ----
+   [P n byz blocks i E T0 K0 s] (Proofs_ConsensusNet_Run.v): engine state s of the
+   correct slot i satisfies the C02 invariant, the decision invariant and is
+   related to SOME reachable protocol state by the simulation relation [Sim]
+   (Proofs_ConsensusNet_Sim.v), E being the votes of everybody else. *)
+From Goloop Require Proofs_ConsensusNet_Run Proofs_ConsensusNet_LockWAL.
+
+(* a crash between events keeps the relation (the lock WAL is fully synced there) *)
+Theorem C01_crash_keeps_simulation :
+  forall (n : nat) (byz : nat -> bool) (blocks : list blk) (i : nat) (E : list vote)
+         (T0 : TM.state) (K0 : vote -> Prop) (kr kl kc : nat) (s : st),
+    Proofs_ConsensusNet_Run.P n byz blocks i E T0 K0 s ->
+    Proofs_ConsensusNet_Run.P n byz blocks i E T0 K0 (crash kr kl kc s).
+Proof. exact Proofs_ConsensusNet_Run.P_crash. Qed.
+Print Assumptions C01_crash_keeps_simulation.
+
+(* a restart (replay of round, lock and commit WAL, then the Start dispatch) keeps
+   the relation: the abstract lock becomes the restored one by [SetLock], which
+   is [lock_safe] because the abstract lock was either none (unlocks are not
+   logged) or the lock of the last complete lock-WAL entry *)
+Theorem C01_restart_keeps_simulation :
+  forall (n : nat) (byz : nat -> bool) (blocks : list blk) (i : nat),
+    i < n -> byz i = false ->
+  forall E : list vote,
+    (forall v, In v E ->
+       (0 <= v_from v < Z.of_nat n)%Z /\ (0 <= v_round v)%Z /\ v_from v <> Z.of_nat i) ->
+  forall (T0 : TM.state) (K0 : vote -> Prop),
+    (forall x, In x blocks -> (1 <= b_parts x)%N) ->
+  forall delay : bool,
+    3 * TM.countn byz n < n ->
+  forall s : st,
+    Proofs_ConsensusNet_Run.P n byz blocks i E T0 K0 s ->
+    Proofs_ConsensusNet_Run.P n byz blocks i E T0 K0 (restart n (Z.of_nat i) blocks delay s).
+Proof. exact Proofs_ConsensusNet_Run.P_restart. Qed.
+Print Assumptions C01_restart_keeps_simulation.
+
+(* the lock restored by [restart] is the lock of the last complete entry of the
+   lock WAL (agent c01lock, Proofs_ConsensusNet_LockWAL.v); K = the known votes,
+   the first hypothesis = at most one polka per round among them *)
+Theorem C01_restart_lock_restored :
+  forall (n : nat) (own : Z) (blocks : list blk) (delay : bool) (K : vote -> Prop),
+    (forall r vs d vs' d',
+       Proofs_ConsensusNode_C01.vs_wf n r Prevote vs -> Proofs_ConsensusNet_LockWAL.vs_sub K vs ->
+       over23 (vs_count_dec vs d) n = true ->
+       Proofs_ConsensusNode_C01.vs_wf n r Prevote vs' -> Proofs_ConsensusNet_LockWAL.vs_sub K vs' ->
+       over23 (vs_count_dec vs' d') n = true -> d = d') ->
+  forall (s : st) h rs ok (L : option (N * Z)),
+    fold_left (apply_round_rec n own) (wal_all (wal_r s)) (nil, (0%Z, SNewHeight), true) = (h, rs, ok) ->
+    Proofs_ConsensusNet_LockWAL.hvs_sub K h ->
+    Proofs_ConsensusNet_LockWAL.lockwal_shape n blocks K (wal_all (wal_l s)) L ->
+    exists s0,
+      restart n own blocks delay s = Proofs_ConsensusNet_LockWAL.restart_fin n own blocks delay (s0, ok, L) /\
+      status_ s0 = Running /\
+      lock_of s0 = option_map (fun bl : N * Z => (snd bl, fst bl)) L /\
+      locked_round s0 = match L with Some (_, lr) => lr | None => (-1)%Z end /\
+      locked s0 = option_map (fun bl : N * Z => mkBps (fst bl) (all_parts blocks (fst bl)) true false) L /\
+      cur s0 = locked s0.
+Proof. exact Proofs_ConsensusNet_LockWAL.restart_lock_restored. Qed.
+Print Assumptions C01_restart_lock_restored.
